@@ -15,6 +15,7 @@
  */
 #pragma once
 
+#include <unifex/detail/verif_hooks.hpp>
 #include <unifex/config.hpp>
 #include <unifex/async_manual_reset_event.hpp>
 #include <unifex/just_from.hpp>
@@ -161,6 +162,7 @@ private:
     auto oldState =
         opState_.fetch_and(~scopeEndedBit, std::memory_order_acq_rel);
 
+    UNIFEX_VERIF_POINT(252);
     if (use_count(oldState) == 0) {
       // there are no outstanding operations to wait for
       evt_.set();
@@ -168,7 +170,9 @@ private:
   }
 
   friend void record_completion(async_scope* scope) noexcept {
+    UNIFEX_VERIF_POINT(253);
     auto oldState = scope->opState_.fetch_sub(2u, std::memory_order_acq_rel);
+    UNIFEX_VERIF_POINT(254);
 
     if (scope_ended(oldState) && use_count(oldState) == 1u) {
       // the scope is stopping and we're the last op to finish
@@ -185,6 +189,7 @@ private:
       }
 
       UNIFEX_ASSERT(opState + 2u > opState);
+      UNIFEX_VERIF_POINT(255);
     } while (!scope->opState_.compare_exchange_weak(
         opState, opState + 2u, std::memory_order_relaxed));
 
